@@ -25,4 +25,32 @@ PROPS = {
                      'Scanner::expect_and_consume_seq (enumerate loop, trusted); allocation failure; that '
                      'MAX_NESTING_DEPTH frames fit the native stack.'),
     ),
+    'C09': dict(
+        title='The filter parser is total',
+        verus=[('u_filter', [r'^Scanner::', r'^parse_', r'^is_unit_char$', r'^is_partial_date$', r'^as_date$', r'^Lexer::',
+                             r'^LexerToken::', r'^Parser::'])],
+        kani=[],
+        witness='filter',
+        design_ref='DESIGN.md section 4, C09',
+        level_text=('Proof (Verus, unbounded): panic-freedom and termination of the filter lexer and parser (and the Zinc '
+                    'scanner/scalar parsers they reuse) for all byte strings; recursion through parentheses bounded by the '
+                    'nesting budget (decreases MAX_NESTING_DEPTH - depth).'),
+        not_decided=('Termination of evaluation (WildcardEq::eval ref-chain loop, Relation::eval through the namespace); '
+                     'Parser::parse (closure capturing self; trusted: one call to read and one to parse_or); the reader is '
+                     'assumed to fail only at end of input (filters are parsed from in-memory strings); '
+                     'c_api::haystack_filter_parse.'),
+    ),
+    'C08': dict(
+        title='Filter text and filter tree correspond',
+        verus=[('u_filter', [r'^Lexer::parse_path$', r'^Parser::to_cmp_op$', r'^Lexer::greater_or_less$'])],
+        kani=[],
+        witness=None,
+        design_ref='DESIGN.md section 4, C08',
+        level_text=('Proof (Verus) of the parser-side clauses only: a path token has 1 + (number of -> consumed) segments, i.e. it '
+                    'ends at the first token that is not ->, and its first segment is the identifier read; to_cmp_op maps the six '
+                    'operator tokens one-to-one to the six operators and rejects everything else.'),
+        not_decided=('The print side: Display of every node goes through write!/core::fmt, so print-then-parse = identity cannot be '
+                     'stated; literal values print through the Zinc encoder; and/or precedence shape; operator spelling clauses of '
+                     'Lexer::read.'),
+    ),
 }
